@@ -89,7 +89,9 @@ def _nx(g):
     for u, v, a in g["edges"]:
         a = dict(a)
         for k in ("order", "standard_order"):
-            if k in a and not isinstance(a[k], (list, tuple)):
+            if k in a and isinstance(a[k], (list, tuple)):
+                a[k] = tuple(float(x) for x in a[k])
+            elif k in a:
                 a[k] = float(a[k])
         G.add_edge(u, v, **a)
     return G
@@ -204,8 +206,10 @@ def _cg_obs(cg):
                       ([d["atom_map"]] if "atom_map" in d else [])])
     edges = []
     for u, v, d in cg.edges(data=True):
-        edges.append([min(u, v), max(u, v), _half(d["order"]),
-                      ([_half(d["standard_order"])] if "standard_order" in d else [])])
+        o = d["order"]
+        edges.append([min(u, v), max(u, v), _half(o[0] if isinstance(o, tuple) else o),
+                      ([_half(d["standard_order"])] if "standard_order" in d else []),
+                      ([_half(o[1])] if isinstance(o, tuple) else [])])
     return [S(nodes), S(edges)]
 
 
@@ -296,7 +300,7 @@ def in_model_domain(g):
                 return False
         seen = set()
         ids = {n for n, _ in g["nodes"]}
-        if len(ids) != len(g["nodes"]) or not g["nodes"]:
+        if len(ids) != len(g["nodes"]):
             return False
         for u, v, a in g["edges"]:
             if u == v or u not in ids or v not in ids or frozenset((u, v)) in seen:
@@ -526,9 +530,86 @@ def _oracle_graph(case):
                 fails.append(_fail("nauty-invariant", "isomorphic graphs get different signatures; A=%r B=%r" % (p0, h)))
         if len(fails) >= 4:
             break
-    if len(fails) < 4 and case.get("sub") != "neighbour":
+    if len(fails) < 4 and case.get("sub") != "neighbour" and len(case["g"]["nodes"]) <= 16:
         _oracle_history(case, fails)
+    if len(fails) < 4 and case.get("sub") != "neighbour" and len(case["g"]["nodes"]) <= 12:
+        _oracle_nauty_direct(case, fails)
     return fails[:4]
+
+
+NAUTY_CONFIGS = [
+    (["element", "aromatic", "charge", "hcount"], ["order"]),
+    (["element", "aromatic", "charge", "hcount"], ["standard_order", "order"]),
+    (["element"], ["order", "standard_order"]),
+    (["hcount", "element"], []),
+    (None, None),
+]
+
+
+def _sel_views(G, nattrs, eattrs):
+    def nf(d):
+        return tuple(repr(d.get(a)) for a in (nattrs or []))
+
+    def ef(d):
+        return tuple(repr(d.get(a)) for a in (eattrs or []))
+    return _views(G, nf, ef)
+
+
+def _oracle_nauty_direct(case, fails):
+    """NautyCanonicalizer used directly: attribute selections (reduced / permuted / empty), canonical_form options,
+    graph_signature - invariance over the presentations and soundness against the mutants on the SELECTED attributes."""
+    from synkit.Graph.Canon.nauty import NautyCanonicalizer
+    pres = [case["g"]] + [a["g"] for a in case.get("alts", [])]
+    for na, ea in NAUTY_CONFIGS:
+        nc = NautyCanonicalizer(node_attrs=na, edge_attrs=ea)
+        P0 = _nx(pres[0])
+        v0 = _sel_views(P0, na, ea)
+        gs0 = nc.graph_signature(P0)
+        cf0 = _sel_views(nc.canonical_form(P0), na, ea)
+        for p in pres[1:]:
+            P = _nx(p)
+            if nc.graph_signature(P) != gs0:
+                fails.append(_fail("nauty-invariant", "NautyCanonicalizer(%r, %r).graph_signature differs for isomorphic presentations; A=%r B=%r" % (na, ea, pres[0], p)))
+            cf = _sel_views(nc.canonical_form(P), na, ea)
+            if cf != cf0:
+                fails.append(_fail("nauty-invariant", "NautyCanonicalizer(%r, %r).canonical_form differs on the selected attributes for isomorphic presentations; A=%r B=%r" % (na, ea, pres[0], p)))
+        for h in case.get("others", []):
+            H = _nx(h)
+            iso = _iso(v0, _sel_views(H, na, ea)) is not None
+            same = nc.graph_signature(H) == gs0
+            if same != iso:
+                fails.append(_fail("sig-sound/nauty" if same else "nauty-invariant",
+                                   "NautyCanonicalizer(%r, %r).graph_signature %s but the graphs are %sisomorphic on the selected attributes; A=%r B=%r"
+                                   % (na, ea, "equal" if same else "different", "" if iso else "NOT ", pres[0], h)))
+        if len(fails) >= 4:
+            return
+    # canonical_form options: positional / keyword, every combination of outputs consistent with the plain call
+    nc = NautyCanonicalizer(["element", "aromatic", "charge", "hcount"], ["order", "standard_order"])
+    P0 = _nx(pres[0])
+    plain = nc.canonical_form(P0)
+    res = nc.canonical_form(P0, True, False, True, True)          # return_aut, remap_aut, return_orbits, return_perm
+    res2 = nc.canonical_form(P0, return_perm=True, return_orbits=True, return_aut=True, remap_aut=True)
+    Gc, perm, auts, orbits, early = res
+    n = P0.number_of_nodes()
+    if _abstract(Gc) != _abstract(plain) or early or sorted(perm) != sorted(P0.nodes) or len(perm) != n:
+        fails.append(_fail("faithful/nauty", "canonical_form with options differs from the plain call / perm is not a permutation; input %r" % (pres[0],)))
+    elif _abstract(Gc) != _abstract(__import__("networkx").relabel_nodes(P0, {v: i + 1 for i, v in enumerate(perm)})):
+        fails.append(_fail("faithful/nauty", "returned perm does not produce the returned canonical graph; input %r" % (pres[0],)))
+    else:
+        cv = _cov(P0)
+        for a in auts:
+            f = dict(zip(perm, a))
+            nodes, adj = cv
+            ok = sorted(f) == sorted(nodes) and sorted(f.values()) == sorted(nodes) and all(nodes[x] == nodes[f[x]] for x in nodes) \
+                and all(adj[x].get(y) == adj[f[x]].get(f[y]) for x in nodes for y in nodes)
+            if not ok:
+                fails.append(_fail("nauty-invariant", "a reported automorphism is not an automorphism on the covered attributes; input %r aut %r" % (pres[0], a)))
+                break
+        if sorted(x for o in orbits for x in o) != sorted(P0.nodes):
+            fails.append(_fail("nauty-invariant", "orbits do not partition the nodes; input %r orbits %r" % (pres[0], orbits)))
+        m = {v: i + 1 for i, v in enumerate(perm)}
+        if _abstract(res2[0]) != _abstract(plain) or res2[1] != perm or [[m[v] for v in a] for a in auts] != res2[2]:
+            fails.append(_fail("faithful/nauty", "remap_aut / keyword call inconsistent with the positional call; input %r" % (pres[0],)))
 
 
 def _fresh(G):
@@ -573,6 +654,7 @@ def _oracle_history(case, fails):
     p0 = case["g"]
     n = len(p0["nodes"])
     canons = {be: _canoniser(be) for be in BACKENDS}
+    tupled = any(isinstance(a.get("order"), (list, tuple)) for _, _, a in p0["edges"])
     shared = _nx(p0)
     twins = {}
     # the same graph object and the same canonicaliser objects, all back-ends in sequence, twice, then reversed
@@ -596,7 +678,8 @@ def _oracle_history(case, fails):
         D = cg.copy()
         c.canonical_signature(D)      # used once, then edited in place: an answer remembered per object would now be stale
         D.add_node(n + 4, element="N", aromatic=False, charge=0, hcount=1)
-        D.add_edge(ids[0], n + 4, order=1.0)
+        if ids:
+            D.add_edge(ids[0], n + 4, order=((1.0, 1.0) if tupled else 1.0))
         _history(c, be, D, "canonical twin + one atom (edited in place after a first use)", fails)
         if n >= 2:
             D = cg.copy()
@@ -607,6 +690,41 @@ def _oracle_history(case, fails):
             _history(c, be, D, "canonical twin - one bond/atom", fails)
             D = cg.subgraph(ids[1:]).copy()
             _history(c, be, D, "induced subgraph of a canonical twin", fails)
+        # the same graph object edited IN PLACE between calls with node and edge counts unchanged, on the reused
+        # canonicaliser and an existing SynGraph wrapper (a memo revalidated by counts or keyed by the object is stale)
+        D = _nx(p0)
+        sgD = SynGraph(D, c)
+        sig_a = c.canonical_signature(D)
+        sgD.signature, hash(sgD)
+        dn = list(D.nodes)
+        if dn:
+            D.nodes[dn[0]]["charge"] = D.nodes[dn[0]].get("charge", 0) + 1
+            _history(c, be, D, "charge edited in place after a first use", fails)
+            D.nodes[dn[-1]]["hcount"] = D.nodes[dn[-1]].get("hcount", 0) + 1
+            _history(c, be, D, "hcount edited in place after a first use", fails)
+            if sgD.signature != _canoniser(be).canonical_signature(_fresh(D)) or not (sgD == SynGraph(_fresh(D), _canoniser(be))):
+                fails.append(_fail("history/%s" % be, "an existing SynGraph does not follow an in-place edit of its graph (counts unchanged); input %r" % (p0,)))
+        de = list(D.edges)
+        if de:
+            u, v = de[0]
+            o = D[u][v].get("order", 1.0)
+            D[u][v]["order"] = (o[1], o[0] + 1.0) if isinstance(o, tuple) else (2.0 if o != 2.0 else 1.0)
+            _history(c, be, D, "bond order edited in place after a first use", fails)
+            free = [w for w in dn if w not in (u, v) and not D.has_edge(u, w)]
+            if free:
+                d = dict(D[u][v])
+                D.remove_edge(u, v)
+                D.add_edge(u, free[0], **d)
+                _history(c, be, D, "bond moved in place after a first use (counts unchanged)", fails)
+        # back to the original value: the original answer
+        D2 = _nx(p0)
+        c.canonical_signature(D2)
+        if dn:
+            D2.nodes[dn[0]]["charge"] = D2.nodes[dn[0]].get("charge", 0) + 1
+            c.canonical_signature(D2)
+            D2.nodes[dn[0]]["charge"] = D2.nodes[dn[0]].get("charge", 0) - 1
+            if c.canonical_signature(D2) != sig_a:
+                fails.append(_fail("history/%s" % be, "edit and undo in place gives another signature than before; input %r" % (p0,)))
         # arbitrary graph-level attributes, including ones that look like internal tags
         D = _nx(p0)
         tags = dict(GRAPH_TAGS)
@@ -796,7 +914,8 @@ def _norm_graph(g, amap=True):
         nodes.append([n, b])
     edges = []
     for u, v, a in g["edges"]:
-        b = {"order": float(a.get("order", 1))}
+        o = a.get("order", 1)
+        b = {"order": [float(x) for x in o] if isinstance(o, (list, tuple)) else float(o)}
         if "standard_order" in a:
             b["standard_order"] = float(a["standard_order"])
         edges.append([u, v, b])
@@ -830,9 +949,21 @@ def _mutant(g, rng):
     h = {"nodes": [[n, dict(a)] for n, a in g["nodes"]], "edges": [[u, v, dict(a)] for u, v, a in g["edges"]]}
     ids = [n for n, _ in h["nodes"]]
     z = rng.random()
+    tup = [e for e in h["edges"] if isinstance(e[2].get("order"), (list, tuple))]
+    if tup and rng.random() < 0.5:
+        # tuple-valued (before, after) orders: mirror one pair / all pairs (forward vs reverse reaction centre)
+        for e in (tup if rng.random() < 0.5 else [rng.choice(tup)]):
+            a, b = e[2]["order"]
+            e[2]["order"] = [b, a]
+            if "standard_order" in e[2]:
+                e[2]["standard_order"] = b - a          # not the negation: -0.0 would print differently from 0.0
+        return h
     if z < 0.3 and h["edges"]:
         e = rng.choice(h["edges"])
-        if rng.random() < 0.2:
+        if isinstance(e[2].get("order"), (list, tuple)):
+            a, b = e[2]["order"]
+            e[2]["order"] = [a, b + 1.0]
+        elif rng.random() < 0.2:
             # absent <-> present: the signature prints 0 vs 0.0, the exact label '' vs '0.0'
             if "standard_order" in e[2]:
                 del e[2]["standard_order"]
@@ -920,6 +1051,93 @@ def _families():
     g["edges"].pop()
     fam.append(("P5", g))
     return [(nm, _norm_graph(g)) for nm, g in fam]
+
+
+PAIRS = [(1.0, 1.0), (2.0, 1.0), (1.0, 2.0), (2.0, 0.0), (0.0, 2.0), (1.0, 0.0), (0.0, 1.0), (1.5, 1.5), (2.0, 2.0), (3.0, 2.0)]
+
+
+def _its_cases(rng, tier):
+    """ITS / reaction-centre like graphs: tuple-valued (before, after) orders, with and without standard_order, a pair and
+    its mirror image in positions that a careless normalisation would make symmetric."""
+    from ..gen import graphs as GG
+    out = []
+
+    def put(g, pattern, std):
+        g = _norm_graph(g)
+        for e, pr in zip(g["edges"], itertools.cycle(pattern)):
+            e[2]["order"] = [pr[0], pr[1]]
+            if std:
+                e[2]["standard_order"] = pr[0] - pr[1]
+        return g
+    fam = []
+    for std in (False, True):
+        fam.append(("ring4-metathesis", put(GG.cycle(4), [(2.0, 0.0), (0.0, 2.0)], std)))
+        fam.append(("ring6-alternating", put(GG.cycle(6), [(2.0, 1.0), (1.0, 2.0)], std)))
+        fam.append(("ring6-cope", put(GG.cycle(6), [(1.0, 0.0), (2.0, 1.0), (1.0, 2.0), (0.0, 1.0), (1.0, 2.0), (2.0, 1.0)], std)))
+        fam.append(("K22-mirror", put(GG.complete_bipartite(2, 2), [(2.0, 0.0), (0.0, 2.0), (0.0, 2.0), (2.0, 0.0)], std)))
+        fam.append(("ring4-one-way", put(GG.cycle(4), [(2.0, 1.0)], std)))
+        fam.append(("ring5-mixed", put(GG.cycle(5), [(1.0, 1.0), (2.0, 1.0), (1.0, 2.0)], std)))
+        fam.append(("path3-centre", put({"nodes": GG.cycle(3)["nodes"], "edges": GG.cycle(3)["edges"][:2]}, [(1.0, 0.0), (0.0, 1.0)], std)))
+    for nm, g in fam:
+        out.append(_graph_case("its", g, rng, nalts=3, nothers=2, name="its/" + nm + ("+std" if "standard_order" in g["edges"][0][2] else "")))
+    for _ in range(30 if tier == "quick" else 400):
+        n = rng.randint(2, 7)
+        g = GG.random_graph(rng, n, p_edge=rng.choice([0.35, 0.5, 0.8]), elements=("C", "C", "O", "N"), orders=(1,), charges=(0, 0, 1),
+                            hcounts=(0, 1, 2))
+        std = rng.random() < 0.5
+        g = put(g, [rng.choice(PAIRS) for _ in range(max(1, len(g["edges"])))], std)
+        ids = [n_ for n_, _ in g["nodes"]]
+        g = GG.relabel(g, dict(zip(ids, rng.sample(range(0, 30), len(ids)))))
+        out.append(_graph_case("its", g, rng, nalts=2, nothers=2))
+    return out
+
+
+def _node(el="C", ch=0, ar=False, hc=0, am=None):
+    d = {"element": el, "charge": ch, "aromatic": ar, "hcount": hc}
+    if am is not None:
+        d["atom_map"] = am
+    return d
+
+
+def _degenerate_cases(rng):
+    """Empty graph, single node, isolated nodes, falsy / negative / large values, attributes on some edges only, ids >= 100."""
+    gs = [
+        ("empty", {"nodes": [], "edges": []}),
+        ("single", {"nodes": [[0, _node()]], "edges": []}),
+        ("single-id-0-amap-0", {"nodes": [[0, _node(am=0)]], "edges": []}),
+        ("two-isolated", {"nodes": [[5, _node()], [3, _node()]], "edges": []}),
+        ("isolated+edge", {"nodes": [[1, _node()], [2, _node("O")], [3, _node()], [4, _node()]], "edges": [[3, 1, {"order": 1.0}]]}),
+        ("amap-0-falsy", {"nodes": [[4, _node(am=0)], [2, _node(am=7)], [9, _node(am=3)]], "edges": [[4, 2, {"order": 1.0}], [2, 9, {"order": 1.0}], [9, 4, {"order": 1.0}]]}),
+        ("order-0.0", {"nodes": [[1, _node()], [2, _node()], [3, _node()]], "edges": [[1, 2, {"order": 0.0}], [2, 3, {"order": 1.0}]]}),
+        ("std-0.0-vs-absent", {"nodes": [[1, _node()], [2, _node()], [3, _node()]],
+                               "edges": [[1, 2, {"order": 1.0, "standard_order": 0.0}], [2, 3, {"order": 1.0}]]}),
+        ("negative-large", {"nodes": [[100, _node("Cl", -12, False, 10)], [250, _node("C", 11, True, 0)], [99, _node("C", 11, True, 0)]],
+                            "edges": [[100, 250, {"order": 3.0, "standard_order": -1.5}], [99, 100, {"order": 3.0, "standard_order": -1.5}]]}),
+        ("element-star-digits", {"nodes": [[1, _node("*")], [2, _node("R1")], [3, _node("*")]], "edges": [[1, 2, {"order": 1.0}], [2, 3, {"order": 1.0}]]}),
+        ("ids-10-11-9", {"nodes": [[10, _node()], [9, _node()], [11, _node()], [100, _node()]],
+                         "edges": [[10, 9, {"order": 1.0}], [9, 11, {"order": 2.0}], [11, 100, {"order": 1.0}]]}),
+    ]
+    return [_graph_case("degenerate", g, rng, nalts=2, nothers=(1 if g["nodes"] else 0), name="degenerate/" + nm) for nm, g in gs]
+
+
+def _size_cases(rng, tier):
+    """Two-digit node counts and ids: random trees / sparse graphs with 10..16 nodes, one chain of 40 atoms."""
+    from ..gen import graphs as GG
+    out = []
+    for k in range(6 if tier == "quick" else 40):
+        n = rng.randint(10, 16)
+        nodes = [[i + 1, _node(rng.choice("CCCNOS"), rng.choice([0, 0, 0, 1, -1]), False, rng.choice([0, 1, 2, 3]), am=i + 1)] for i in range(n)]
+        edges = [[i + 1, rng.randint(1, i), {"order": float(rng.choice([1, 1, 2]))}] for i in range(1, n)]
+        for _ in range(rng.randint(0, 2)):
+            u, v = rng.sample(range(1, n + 1), 2)
+            if not any({u, v} == {a, b} for a, b, _ in edges):
+                edges.append([u, v, {"order": 1.5}])
+        out.append(_graph_case("size", {"nodes": nodes, "edges": edges}, rng, nalts=2, nothers=1, name="size/n%d-%d" % (n, k)))
+    n = 24
+    nodes = [[i + 90, _node("CNO"[i % 3] if i % 7 else "S", 0, False, i % 3)] for i in range(n)]
+    edges = [[i + 90, i + 91, {"order": float(1 + (i % 2))}] for i in range(n - 1)]
+    out.append(_graph_case("size", {"nodes": nodes, "edges": edges}, rng, nalts=2, nothers=1, name="size/chain24"))
+    return out
 
 
 RULES = [
@@ -1030,6 +1248,7 @@ def gen_cases(tier, rng):
         gs = [g] + [_reinsert(_renumber(g, rng, "keep"), rng) for _ in range(2)] + [_mutant(g, rng) for _ in range(4)]
         cases.append(dict(kind="batch", sub="batch-random", graphs=gs, distinct_classes=False))
     cases += _rule_cases(rng, 30 if tier == "quick" else 66)
+    cases += _its_cases(rng, tier) + _degenerate_cases(rng) + _size_cases(rng, tier)
     # the symmetric families are the expensive cases (cube, Petersen: hundreds of leaves and _refine calls each):
     # spread them over the shards instead of putting them into one
     step = max(1, len(cases) // (len(fam) + 1))
